@@ -25,6 +25,14 @@ func stamp(code int) time.Time {
 	if code == 0 {
 		return time.Time{} // missing timestamp
 	}
+	// t1 < t2 < t3 span the whole range of legal dates: the order of times must not depend on
+	// their fitting any particular integer representation
+	switch code {
+	case 1:
+		return time.Date(1600, 1, 1, 0, 0, 0, 0, time.UTC)
+	case 3:
+		return time.Date(9999, 12, 31, 23, 59, 59, 0, time.UTC)
+	}
 	return t0.Add(time.Duration(code) * time.Hour)
 }
 
@@ -357,7 +365,9 @@ func sizesPart(r *ev.Report) {
 // second, offsets, missing values) is part of what is merged. Every pair of sources with up
 // to two items each over six timestamp spellings.
 func realItemsPart(r *ev.Report) {
-	stamps := []string{"", "2020-01-01T10:00:00Z", "2020-01-01T10:00:00.100Z", "2020-01-01T10:00:00.900Z", "2020-01-01T10:00:01Z", "2020-01-01T11:00:00.5+01:00"}
+	// ... and times far from the present: every RFC 3339 date is legal, also those that do not fit a 64-bit count of nanoseconds since 1970
+	stamps := []string{"", "2020-01-01T10:00:00Z", "2020-01-01T10:00:00.100Z", "2020-01-01T10:00:00.900Z", "2020-01-01T10:00:01Z", "2020-01-01T11:00:00.5+01:00",
+		"9999-12-31T23:59:59Z", "2300-01-01T00:00:00Z", "1600-01-01T00:00:00Z", "0001-01-01T00:00:01Z", "1969-12-31T23:59:59Z"}
 	parse := func(s string) time.Time {
 		if s == "" {
 			return time.Time{}
@@ -460,7 +470,7 @@ func main() {
 	r := ev.New("C11", "model_checking",
 		"source tuples: k in 0..3 sources, each a list of 0..3 items with timestamps from {missing, t1<t2<t3} in every order (ties, unsorted); quick: all tuples of <=2 sources with <=3 items and 3 sources with <=2 items, "+
 			"thorough: all tuples of <=3 sources with <=3 items; per tuple an explicit-state search over request sequences (sizes {0,1,2,3,5}, state = items delivered), every transition replayed on a fresh real Splicer "+
-			"over synthetic Container sources, every continuation asked twice, plus every unmerged request pair (optionally followed by an empty request) and then a large request; long sources (1,19..22,39..41,64,100 items; one source, long+short, two interleaved) under single requests of 19..128 items and a few two-request sequences; real posts built from JSON (six spellings of the published time incl. fractions of a second and an offset) in every pair of sources with <=2 items; real paged collections (page sizes 1..3 over <=3 embedded pages, with and without an unreadable last reference, which makes a source hand over an error item beyond the number asked for) alone and in every pair under 7 request patterns, judged against the merge of what each source delivers alone; distinct_nontrivial = tuples with >=2 non-empty sources")
+			"over synthetic Container sources, every continuation asked twice, plus every unmerged request pair (optionally followed by an empty request) and then a large request; long sources (1,19..22,39..41,64,100 items; one source, long+short, two interleaved) under single requests of 19..128 items and a few two-request sequences; real posts built from JSON (eleven spellings of the published time incl. fractions of a second, an offset, and years 1, 1600, 1969, 2300 and 9999) in every pair of sources with <=2 items; real paged collections (page sizes 1..3 over <=3 embedded pages, with and without an unreadable last reference, which makes a source hand over an error item beyond the number asked for) alone and in every pair under 7 request patterns, judged against the merge of what each source delivers alone; distinct_nontrivial = tuples with >=2 non-empty sources")
 	if *ev.FlagReplay != "" {
 		var s session
 		if key := ev.LoadReplay(*ev.FlagReplay, &s); strings.HasPrefix(key, "paged:") {
